@@ -114,7 +114,8 @@ class Report:
                     and f.get("standin_input") == failure.get("input"):
                 return f
             if f.get("property") == self.prop and f.get("site") and f.get("site") == failure.get("site") \
-                    and (f.get("signature") is None or f.get("signature") == failure.get("signature")):
+                    and (f.get("signature") is None or f.get("signature") in json.dumps(failure.get("observed"), default=str, ensure_ascii=False)
+                         or f.get("signature") == failure.get("signature")):
                 return f
         return None
 
